@@ -5,7 +5,7 @@ from . import ftlib as F
 
 ID = "C13"
 CHECKER = "chk_ft"
-THEOREMS = ['C13_crop_is_filter', 'C13_crop_in_window', 'C13_crop_keeps_inside', 'C13_crop_lengths', 'C13_crop_idem', 'C13_window_is_precrop', 'C13_outside_irrelevant', 'C13_crop_full_range', 'C13_no_window_is_full_range']
+THEOREMS = ['C13_crop_is_filter', 'C13_crop_in_window', 'C13_crop_keeps_inside', 'C13_crop_lengths', 'C13_crop_idem', 'C13_window_is_precrop', 'C13_outside_irrelevant', 'C13_crop_full_range', 'C13_no_window_is_full_range', 'C13g_crop_is_filter', 'C13g_crop_lengths', 'C13g_crop_idem', 'C13g_window_is_precrop', 'C13g_outside_irrelevant', 'C13g_no_window_is_full_range', 'C13g_crop_is_filter_binary64', 'C13g_crop_idem_binary64', 'C13g_window_is_precrop_binary64']
 RULE = ("fourier_transform and apply_cropping with windows on grid points / between them / partly or wholly outside / one-sided / absent, "
         "Lorch on and off, with and without uncertainties; the implementation additionally gets NaN/inf outside the window in the oracle; "
         "non-trivial = some output non-zero; distinct by input hash")
